@@ -60,21 +60,9 @@ func (t *token) rename(v string) {
 }
 
 func (t *token) Int() int {
-	if len(t.Text) > 2 && t.Text[:2] == "0x" {
-		v, err := strconv.ParseInt(t.Text[2:], 16, 0)
-		if err != nil {
-			panicf("error parsing hex: %v", err)
-		}
-		return int(v)
-	}
-	if len(t.Text) > 1 && t.Text[0] == '0' {
-		v, err := strconv.ParseInt(t.Text[1:], 8, 0)
-		if err != nil {
-			panicf("error parsing octal: %v", err)
-		}
-		return int(v)
-	}
-	v, err := strconv.Atoi(t.Text)
+	// base 0: Go's literal syntax (0x, 0o, 0b, leading-0 octal, underscores), with the sign that
+	// negateNud folds into the text
+	v, err := strconv.ParseInt(t.Text, 0, 0)
 	if err != nil {
 		panicf("error parsing int: %v", err)
 	}
